@@ -14,7 +14,12 @@ namespace detail {
 template <typename T>
 [[nodiscard]] constexpr auto signbit_fallback(T arg) noexcept -> bool
 {
-    return arg == T(-0.0) || arg < T(0);
+#if __has_builtin(__builtin_copysignl)
+    // usable in constant expressions; sees the sign of zeros and NaNs
+    return __builtin_copysignl(1.0L, static_cast<long double>(arg)) < 0.0L;
+#else
+    return arg < T(0);
+#endif
 }
 
 } // namespace detail
